@@ -24,7 +24,8 @@ var reDirectiveLine = regexp.MustCompile(`^\s*((@prefix|@base)\s+([^\s<]*\s*)?<[
 func c16Preamble(doc string) (string, bool) {
 	var pre []string
 	body := false
-	for _, ln := range strings.Split(doc, "\n") {
+	// a line ends at LF, CR or CRLF (comments too)
+	for _, ln := range strings.Split(strings.ReplaceAll(strings.ReplaceAll(doc, "\r\n", "\n"), "\r", "\n"), "\n") {
 		t := strings.TrimSpace(ln)
 		if t == "" || strings.HasPrefix(t, "#") {
 			continue
